@@ -17,7 +17,7 @@ FUNCTIONS = [
     "jsonargparse._core.ArgumentParser.parse_args/set_defaults/instantiate_classes",
 ]
 
-LAYOUTS = ["single:f1", "single:f2", "single:f3", "single:K1", "list:f1,f3", "dict:grp(f1,f3),f2", "list:f1,K1"]
+LAYOUTS = ["single:f1", "single:f2", "single:f3", "single:K1", "list:f1,f3", "dict:grp(f1,f3),f2", "single:f4", "list:f4,f3", "list:f1,K1"]
 
 
 def _components(layout):
@@ -111,6 +111,8 @@ def cli(layout, via_config=False):
             failed = False
         except ArgumentError:
             failed = True
+        except TypeError as ex:
+            return Fail("cli:component-call-raised-TypeError", layout=layout, target=tname, msg=str(ex)[:160])
         S.note("failed" if missing_required else "called")
         if failed != missing_required:
             return Fail("cli:wrong-accept-reject", layout=layout, target=tname, method=method, failed=failed, missing_required=missing_required, argv=argv)
@@ -157,7 +159,7 @@ def main(rep, tier):
         "the components=None module-scan form, async callees, methods with a 'config' parameter are outside",
     ]
     jobs = []
-    for layout in (LAYOUTS if tier == "thorough" else LAYOUTS[:6]):
+    for layout in (LAYOUTS if tier == "thorough" else LAYOUTS[:8]):
         jobs.append(dict(module="c12", func="cli", kwargs=dict(layout=layout), timeout=600))
         if layout.startswith("single"):
             jobs.append(dict(module="c12", func="cli", kwargs=dict(layout=layout, via_config=True), timeout=600))
